@@ -18,6 +18,8 @@ struct World {
     pks: [Secp256k1PublicKey; 3],
     accounts: [ComponentAddress; 3], // A (source), B, C - all three sign (plain deposits need the receiver's authority)
     res: [ResourceAddress; 3],       // F (fungible), N (non-fungible #1# #2# #3#), X = XRD
+    locker: ComponentAddress,        // an AccountLocker holding 5000 F claimable by A
+    locker_badge: ResourceAddress,
 }
 const ACC: [&str; 3] = ["A", "B", "C"];
 const RES: [&str; 3] = ["F", "N", "X"];
@@ -36,7 +38,33 @@ fn world(b_rejects: bool) -> World {
             .build();
         ledger.execute_manifest(m, vec![NonFungibleGlobalId::from_public_key(&pkb)]).expect_commit_success();
     }
-    World { ledger, pks: [pk, pkb, pkc], accounts: [a, b, c], res: [f, n, XRD] }
+    // an account locker (instantiate_simple: one badge for every role, kept by A) with 5000 F stored for claimant A
+    let receipt = ledger.execute_manifest(
+        ManifestBuilder::new()
+            .lock_fee_from_faucet()
+            .call_function(LOCKER_PACKAGE, ACCOUNT_LOCKER_BLUEPRINT, ACCOUNT_LOCKER_INSTANTIATE_SIMPLE_IDENT, AccountLockerInstantiateSimpleManifestInput { allow_recover: true })
+            .deposit_entire_worktop(a)
+            .build(),
+        vec![NonFungibleGlobalId::from_public_key(&pk)],
+    );
+    let commit = receipt.expect_commit_success();
+    let locker = commit.new_component_addresses()[0];
+    let locker_badge = commit.new_resource_addresses()[0];
+    ledger
+        .execute_manifest(
+            ManifestBuilder::new()
+                .lock_fee_from_faucet()
+                .create_proof_from_account_of_amount(a, locker_badge, dec!(1))
+                .withdraw_from_account(a, f, dec!(5000))
+                .take_all_from_worktop(f, "stored")
+                .with_bucket("stored", |builder, bucket| {
+                    builder.call_method(locker, ACCOUNT_LOCKER_STORE_IDENT, AccountLockerStoreManifestInput { claimant: a.into(), bucket, try_direct_send: false })
+                })
+                .build(),
+            vec![NonFungibleGlobalId::from_public_key(&pk)],
+        )
+        .expect_commit_success();
+    World { ledger, pks: [pk, pkb, pkc], accounts: [a, b, c], res: [f, n, XRD], locker, locker_badge }
 }
 
 fn q(d: Decimal) -> Option<i64> {
@@ -172,6 +200,10 @@ fn build(w: &World, steps: &[J]) -> TransactionManifestV2 {
             "lock_fee_withdraw" => mb.lock_fee_and_withdraw(w.accounts[0], d(&s["fee"]), res.unwrap(), d(&s["amt"])),
             "lock_fee_withdraw_nf" => mb.lock_fee_and_withdraw_non_fungibles(w.accounts[0], d(&s["fee"]), w.res[1], ids(&s["ids"])),
             "lock_fee" => mb.lock_fee(w.accounts[0], d(&s["fee"])),
+            "locker_claim" => mb.call_method(w.locker, ACCOUNT_LOCKER_CLAIM_IDENT, AccountLockerClaimManifestInput { claimant: w.accounts[0].into(), resource_address: w.res[0].into(), amount: d(&s["amt"]) }),
+            "locker_recover" => mb
+                .create_proof_from_account_of_amount(w.accounts[0], w.locker_badge, dec!(1))
+                .call_method(w.locker, ACCOUNT_LOCKER_RECOVER_IDENT, AccountLockerRecoverManifestInput { claimant: w.accounts[0].into(), resource_address: w.res[0].into(), amount: d(&s["amt"]) }),
             "lock_contingent_fee" => mb.lock_contingent_fee(w.accounts[0], d(&s["fee"])),
             "burn_in_account" => mb.burn_in_account(w.accounts[0], res.unwrap(), d(&s["amt"])),
             "burn_nf_in_account" => mb.burn_non_fungibles_in_account(w.accounts[0], w.res[1], ids(&s["ids"])),
@@ -414,6 +446,9 @@ fn scenarios() -> Vec<(String, Vec<J>)> {
         ("proof-then-withdraw", vec![json!({"op": "proof_of_amount", "res": 0, "amt": 1.5}), json!({"op": "withdraw", "res": 0, "amt": 5.0})], 0),
         ("proof-nf-then-withdraw-nf", vec![json!({"op": "proof_of_nf", "ids": [1]}), json!({"op": "withdraw_nf", "ids": [2]})], 1),
         ("burn-then-withdraw", vec![json!({"op": "burn_in_account", "res": 0, "amt": 0.5}), json!({"op": "withdraw", "res": 0, "amt": 5.0})], 0),
+        ("locker-claim", vec![json!({"op": "locker_claim", "amt": 4.5})], 0),
+        ("locker-recover", vec![json!({"op": "locker_recover", "amt": 6.5})], 0),
+        ("locker-claim-and-withdraw", vec![json!({"op": "locker_claim", "amt": 4.5}), json!({"op": "withdraw", "res": 0, "amt": 5.0})], 0),
         ("two-withdrawals", vec![json!({"op": "withdraw", "res": 0, "amt": 5.0}), json!({"op": "lock_fee_withdraw", "fee": 3.0, "res": 0, "amt": 1.5})], 0),
     ];
     for (name, src, r) in typed_sources.iter() {
